@@ -26,7 +26,7 @@ func init() {
 			"horizon: queries up to 3 days of playing time (whatever the tick count), tempo events in a single track",
 			"inverse domain: durations below 2^40 microseconds and tick rates below 10^7 ticks per second (statement)",
 		},
-		Require: []string{"maps", "queries", "border_queries", "monotonic_pairs", "repeated_tick_maps", "late_first_event_maps", "do_events_compared", "inverse_triples", "queries_beyond_2^32_ticks", "do_filtered_events_compared", "tempo_track_not_first", "format2_maps", "large_tempo_maps"},
+		Require: []string{"track_selection_reads", "other_events_with_delta_between_tempo_events", "maps", "queries", "border_queries", "monotonic_pairs", "repeated_tick_maps", "late_first_event_maps", "do_events_compared", "inverse_triples", "queries_beyond_2^32_ticks", "do_filtered_events_compared", "tempo_track_not_first", "format2_maps", "large_tempo_maps"},
 		Run:     runC11,
 	})
 }
@@ -79,9 +79,27 @@ func runC11(c *mon.Ctx) {
 			}
 			tm.Events = append(tm.Events, ref.TempoEv{AbsTick: abs, USPerQuarter: f})
 			tr = append(tr, ref.EncEv{Ev: ref.Ev{Delta: d, Msg: ref.Meta(0x51, []byte{byte(f >> 16), byte(f >> 8), byte(f)})}})
-			// other events in between do not matter
+			// other events in between (channel messages, markers, time signatures, at their own deltas) do
+			// not matter for the tempo map, but they advance the tick position of what follows
 			if r.P(1, 3) {
-				tr = append(tr, ref.EncEv{Ev: ref.Ev{Delta: 0, Msg: []byte{0x90, byte(k & 127), 1}}})
+				var d2 uint32
+				if r.Bool() {
+					d2 = uint32(r.Intn(int(res)*4 + 1))
+				}
+				var om []byte
+				switch r.Intn(3) {
+				case 0:
+					om = []byte{0x90, byte(k & 127), 1}
+				case 1:
+					om = ref.Meta(0x06, []byte("m"))
+				default:
+					om = ref.Meta(0x58, []byte{3, 2, 24, 8})
+				}
+				abs += int64(d2)
+				tr = append(tr, ref.EncEv{Ev: ref.Ev{Delta: d2, Msg: om}})
+				if d2 > 0 {
+					c.Count("other_events_with_delta_between_tempo_events", 1)
+				}
 			}
 		}
 		tr = append(tr, ref.EncEv{Ev: ref.Ev{Delta: uint32(r.Intn(1000)), Msg: ref.EOT}})
@@ -219,6 +237,47 @@ func runC11(c *mon.Ctx) {
 				}
 			})
 		})
+		// reading a selection of tracks (also selections that leave out the track with the tempo events): the
+		// tempo map, and with it every time handed out, stays that of the whole file
+		if nt := len(ef.Tracks); nt > 1 {
+			var sel []int
+			for t := 0; t < nt; t++ {
+				if r.Bool() {
+					sel = append(sel, t)
+				}
+			}
+			if len(sel) == 0 || len(sel) == nt {
+				sel = []int{r.Intn(nt)}
+			}
+			trs := smf.ReadTracksFrom(bytes.NewReader(b), sel...)
+			if trs.Error() != nil {
+				c.Violation("readtracks-error", fmt.Sprintf("ReadTracksFrom with the track selection %v: %v", sel, trs.Error()), in, nil, nil)
+				return
+			}
+			c.Guard("panic:Do+selection", in, func() {
+				seen := 0
+				trs.Do(func(te smf.TrackEvent) {
+					seen++
+					c.Count("do_events_compared", 1)
+					num, segs := tm.Exact(te.AbsTicks)
+					if !tm.Within(te.AbsMicroSeconds, num, int64(segs)) {
+						c.Violation("do-time-selection", fmt.Sprintf("track selection %v: track %d event at tick %d: AbsMicroSeconds %d, exact %d", sel, te.TrackNo, te.AbsTicks, te.AbsMicroSeconds, tm.Micros(num)), in, tm.Micros(num), te.AbsMicroSeconds)
+					}
+				})
+				if sm := trs.SMF(); sm != nil {
+					for _, q := range qs {
+						num, segs := tm.Exact(q)
+						if got := sm.TimeAt(q); !tm.Within(got, num, int64(segs)) {
+							c.Violation("timeat-selection", fmt.Sprintf("after ReadTracksFrom with the track selection %v: TimeAt(%d) = %d, exact %d", sel, q, got, tm.Micros(num)), in, tm.Micros(num), got)
+							break
+						}
+					}
+				}
+				if seen > 0 {
+					c.Count("track_selection_reads", 1)
+				}
+			})
+		}
 		// filtered iteration: the times handed out must still be the tempo-map values
 		for _, flt := range [][]midi.Type{{midi.NoteOnMsg}, {midi.NoteOffMsg}, {smf.MetaTempoMsg}, {midi.NoteOnMsg, midi.NoteOffMsg}} {
 			trf := smf.ReadTracksFrom(bytes.NewReader(b)).Only(flt...)
